@@ -305,19 +305,38 @@ theorem endLink_length (ws : List Wrap) (h : HS) : (endLink ws h).1.length = ws.
     · rfl
   · rfl
 
-/-- half_space.py:_end_comments_in_parentheses: in front of every ")" of the chain the comment line is ended -/
-def closeParens : List Wrap → HS → List Wrap × HS
-  | [], h => ([], h)
-  | w :: ws, h =>
+/-- half_space.py:_end_comments_in_parentheses: in front of every ")" of the chain the comment line is ended.
+    The Python loop walks the chain once; `fuel` is the number of trees still to visit. -/
+def closeParensAux : Nat → List Wrap → HS → List Wrap × HS
+  | 0, ws, h => (ws, h)
+  | _, [], h => ([], h)
+  | n + 1, w :: ws, h =>
       let r := if w.ep.isSome then endLink ws h else (ws, h)
-      let r2 := closeParens r.1 r.2
+      let r2 := closeParensAux n r.1 r.2
       (w :: r2.1, r2.2)
-termination_by ws => ws.length
-decreasing_by
-  simp only [List.length_cons]
-  split
-  · rw [endLink_length]; omega
-  · simp
+
+def closeParens (ws : List Wrap) (h : HS) : List Wrap × HS := closeParensAux ws.length ws h
+
+/-- sufficiency of the fuel: any amount of at least the chain's length gives the same result -/
+theorem closeParensAux_fuel (n : Nat) (ws : List Wrap) (h : HS) (hn : ws.length ≤ n) :
+    closeParensAux n ws h = closeParensAux ws.length ws h := by
+  induction n generalizing ws h with
+  | zero =>
+    have : ws = [] := by cases ws with
+      | nil => rfl
+      | cons w ws => simp at hn
+    subst this; rfl
+  | succ n ih =>
+    cases ws with
+    | nil => simp [closeParensAux]
+    | cons w ws =>
+      simp only [List.length_cons] at hn
+      simp only [closeParensAux, List.length_cons]
+      have hl : (if w.ep.isSome then endLink ws h else (ws, h)).1.length = ws.length := by
+        split
+        · exact endLink_length ws h
+        · rfl
+      rw [ih _ _ (by rw [hl]; omega), hl]
 
 /-- half_space.py:HalfSpace._link_child. Returns the new link, its target, the (possibly touched) child
     and the id counter. `follow` = "key == left and self.right is not None". -/
